@@ -215,8 +215,8 @@ PROPS = {
         rule="rapid-generated filter terms (depth <= 3) over the filter package's constructors evaluated on generated slices of the 3ns x 3names x 16 label-map universe, plus enumerated terms against the complete universe; compared with an independent evaluator. Non-trivial = term of depth >= 2 containing a partial NSName entry or a set-based selector requirement; distinct = distinct term rendering.",
         assumptions=["label keys/values restricted to the valid universe x,y / 1,2,'' (empty string) (filter.LabelSelector panics on invalid selectors by contract)",
                      "NSName entries with both fields empty are outside the contract and never generated"],
-        quick=[J("TestC18_Random", checks=40000), J("TestC18_Enum")],
-        thorough=[J("TestC18_Random", checks=150000, shards=16), J("TestC18_Enum", shards=16), J("FuzzC18", fuzztime="60s", timeout=600)],
+        quick=[J("TestC18_Random", checks=40000), J("TestC18_Enum"), J("TestC18_SharedSubfilters", checks=5000)],
+        thorough=[J("TestC18_Random", checks=150000, shards=16), J("TestC18_Enum", shards=16), J("TestC18_SharedSubfilters", checks=100000, shards=4), J("FuzzC18", fuzztime="60s", timeout=600)],
     ),
 }
 
